@@ -5,6 +5,8 @@ pub mod env;
 pub mod c01;
 pub mod c12;
 pub mod c11;
+pub mod c13;
+pub mod xp;
 
 #[cfg(kani)]
 mod gen;
@@ -19,5 +21,7 @@ pub fn registry() -> Vec<(&'static str, Body)> {
   v.extend(c01::registry());
   v.extend(c12::registry());
   v.extend(c11::registry());
+  v.extend(c13::registry());
+  v.extend(xp::registry());
   v
 }
